@@ -53,6 +53,7 @@ DEFAULT_KNOBS = Knobs(
     argparse_domain=False,  # restrict types to what argparse can express
     p_code_default=0.5,  # for types that admit a code default
     p_hyphen_tokens=0.0,  # long prose carries free-standing '-' / '--' tokens and hyphenated words (wrap points of textwrap)
+    p_return_literal_source=0.0,  # the returned expression is a bare literal in source form ('5', "'mnist'")
     p_doc_states_default=0.0,  # prose already carries its "Defaults to X" sentence (as the repository's canonical IR does)
 )
 
@@ -386,6 +387,8 @@ class IRGen:
                     "code_arith": "```{} + 1```".format(nn),
                 }[kind]
                 rdc = kind
+                if k.p_return_literal_source and self.chance(k.p_return_literal_source):
+                    rt["default"], rdc = r.choice(["5", "0.5", "True", "'mnist'"]), "literal_source"
             if not rt:
                 rt["doc"], rdoc = "the zq_return_type value which is computed", "plain"
             returns = OrderedDict((("return_type", rt),))
